@@ -202,6 +202,10 @@ def replay(rp):
                 return False
             ok, _, _ = oracle_sh(s, vlib.b64d(r["out_b64"]), cwd)
             return ok
+        if rp.get("kind") == "shellvars_alias":
+            a = vlib.run_yq(["-p=json", "-o=shell", "."], stdin=json.dumps(rp["doc"]).encode())
+            b = vlib.run_yq(["-p=json", "-o=" + rp["format"], "."], stdin=json.dumps(rp["doc"]).encode())
+            return a[0] != 0 or (b[0] == 0 and a[1] == b[1])
         if rp.get("kind") == "shlist":
             r = vlib.yqh_batch([{"op": "eval", "expr": "[.[] | @sh]", "input": json.dumps(rp["list"]), "in": "json", "out": "json", "indent": 0}])[0]
             if "out_b64" not in r or r.get("err"):
@@ -404,6 +408,24 @@ def run(chk):
             if not okk:
                 chk.violation({"kind": "shellvars_yaml", "yaml": y, "impl_out": out.decode("utf-8", "replace"), "why": why, "want": want}, True,
                               "sourcing the -o=shell output of a YAML document does not define the expected variables: " + why)
+        # ---- every spelling of the output format that means "shell variables" (-o=shell, -o=s, -o=sh) gives the same,
+        #      sourceable, output; none of them may fall through to the bare-word @sh encoder
+        adocs = [{"a": "$(touch PWNED)", "b": {"c": "x y"}}, {"k": "`touch PWNED`"}, "touch PWNED", {"p": "1;touch PWNED"}, ["a b", "c"]]
+        for k, d in enumerate(adocs):
+            # the real binary: the spelling is resolved by the command line's format table
+            outs = []
+            for name in ("shell", "s", "sh"):
+                rc, so, se = vlib.run_yq(["-p=json", "-o=" + name, "."], stdin=json.dumps(d).encode())
+                outs.append(so if rc == 0 else None)
+            chk.count(("svalias", json.dumps(d)), nontrivial=True)
+            if outs[0] is None:
+                continue
+            for name, o in zip(("s", "sh"), outs[1:]):
+                if o != outs[0] and len(chk.violations) < 8:
+                    okk, why = (False, "no output") if o is None else source_oracle(d, o, cwd)
+                    chk.violation({"kind": "shellvars_alias", "doc": d, "format": name, "impl_out": (o or b"").decode("utf-8", "replace"),
+                                   "expect": outs[0].decode("utf-8", "replace"), "why": why}, True,
+                                  "-o=%s does not give the shell-variables output that -o=shell gives (sourcing it: %s)" % (name, why or "ok"))
         mism, err = vlib.coq_mismatches(chk.workdir, "sv_cases", IMPORTS, "sv_output (fun k => k)", sv_cases)
         if err:
             broken.append("model evaluation failed (shellvars): " + err[-500:])
